@@ -10,4 +10,16 @@ func init() {
 		rule{name: "T-nm", run: ruleTNm},
 		rule{name: "T-cfg", run: ruleTCfg},
 	)
+	register("C18",
+		"Lock discipline of the documented thread-safe types decided for every schedule by a lockset analysis (L-fee: every read/write of FeeQuotes.quotes, FeeQuote.fees, FeeQuote.expiryTime happens with the struct's RWMutex held in a sufficient mode; L-pair: acquire/release kinds pair on every path; L-order: acquisition order acyclic; L-escape: no guarded map handed out by reference). Verdict equality of concurrent vs sequential Execute is decided only through its structural cause: O-glob shows no function reachable from Engine.Execute writes package-level state.",
+		[]string{"races inside go-bk / the standard library are out of scope"},
+		rule{name: "L-fee", run: ruleLockset},
+		rule{name: "O-glob", run: ruleOGlob},
+	)
+	register("C08",
+		"Decides the aliasing clause structurally: O-immut shows no store/copy/append/external write reaches any byte slice derived from a stack item (Pop/Peek/nipN results, stack.stk elements) or from ParsedOpcode.Data (which aliases the caller's script); O-pure shows the transitive write summary of Engine.Execute touches caller-owned memory only at tx.Inputs[i].PreviousTxScript/PreviousTxSatoshis (the documented exception). Both quantify over every script and flag set because they are may-write facts of the code, not runs.",
+		[]string{"WithState is excluded (documented as unstable)", "user-supplied Debugger implementations are outside the property"},
+		rule{name: "O-immut", run: ruleOImmut},
+		rule{name: "O-pure", run: ruleOPureExecute},
+	)
 }
